@@ -31,9 +31,10 @@ def worlds(tier):
         ws.append((full_world(F_ADV[3]), 3))
         for p in (99, 101, 150):
             ws.append((tall_world(p), TALL_DEPTH))
-        # every table with exactly 2 rows over small domains (g,x in {null,1,2}; f,b,s one value or null)
-        for rows in rows_upto([[None, 1, 2], [None, 1, 2], [None, 1.5], [None, True], [None, "a"]], 2, with_id=True):
-            if len(rows) == 2 and rows[0][1:] <= [v if v is not None else None for v in rows[1][1:]] or len(rows) == 2:
+        # every table with exactly 2 rows over g,x in {null,1,2} x (f,b,s) in {all null, all set}
+        for rows in rows_upto([[None, 1, 2], [None, 1, 2], [0, 1]], 2, with_id=True):
+            if len(rows) == 2:
+                rows = [[r[0], r[1], r[2], *((1.5, True, "a") if r[3] else (None, None, None))] for r in rows]
                 ws.append((full_world(rows), 2))
     return ws
 
@@ -79,7 +80,7 @@ def describe(tier):
         "n_worlds": len(ws),
         "input_family": "ADV (5 rows nulls/dups; 3 rows ties; empty" + ("; single all-null row" if tier == "thorough" else "")
                         + ") + TALL(p leading nulls, p in " + ("{99,100,101,150}" if tier == "thorough" else "{100}") + ")"
-                        + ("; every 2-row table over g,x in {null,1,2}, f in {null,1.5}, b in {null,T}, s in {null,'a'} at depth 2" if tier == "thorough" else ""),
+                        + ("; every 2-row table over g,x in {null,1,2} x (f,b,s) in {(null,null,null),(1.5,True,'a')} at depth 2" if tier == "thorough" else ""),
         "schema": F_COLS,
         "backends": ["polars", "sqlite"],
         "oracle": "differential: polars export == SQLite export (names in order; rows as sequence when the accumulated arrange keys are total, else multiset); permitted SQL refusals SubqueryError/NotSupportedError",
